@@ -213,7 +213,10 @@ func sqlErrClass(err error) string {
 
 var reSelVal = regexp.MustCompile(`S:"(-?[0-9]+)"`)
 
-func c09SQLOracle(init int) func(w *fsx.World) []fsx.Violation {
+func c09SQLOracle(init int) func(w *fsx.World) []fsx.Violation { return c09SQLOracleOn("t", init) }
+
+// c09SQLOracleOn judges the counter table tbl (file tbl.csv).
+func c09SQLOracleOn(tbl string, init int) func(w *fsx.World) []fsx.Violation {
 	return func(w *fsx.World) []fsx.Violation {
 		var out []fsx.Violation
 		if !w.Final {
@@ -239,7 +242,7 @@ func c09SQLOracle(init int) func(w *fsx.World) []fsx.Violation {
 						own[done] = true // the time-out may have hit this statement
 					}
 					switch {
-					case strings.Contains(st, "UPDATE t SET"):
+					case strings.Contains(st, "UPDATE "+tbl+" SET"):
 						pending++
 					case strings.Contains(st, "COMMIT"):
 						done, pending = done+pending, 0
@@ -278,10 +281,10 @@ func c09SQLOracle(init int) func(w *fsx.World) []fsx.Violation {
 			}
 		}
 		sort.Ints(poss)
-		content, exists := w.Files["t.csv"]
+		content, exists := w.Files[tbl+".csv"]
 		n, okN := parseN(content)
 		if !exists || !okN || !possible[n-init] {
-			out = append(out, fsx.Violation{Sig: "I2:lost-update", Msg: fmt.Sprintf("t.csv ends as %q (exists=%v); the programs committed %v increments from %d", content, exists, poss, init)})
+			out = append(out, fsx.Violation{Sig: "I2:lost-update", Msg: fmt.Sprintf(tbl+".csv ends as %q (exists=%v); the programs committed %v increments from %d", content, exists, poss, init)})
 		}
 		for _, r := range reads {
 			if r.v < init || r.v > init+commits+1 {
@@ -421,6 +424,9 @@ type c09Scenario struct {
 	anywhere     bool
 	thoroughOnly bool
 	sql          bool
+	counter      string // sql scenarios: the counter table the oracle judges (default t)
+	heldFrom     int    // sql scenarios: from its heldFrom-th statement on, until it starts to commit, process 1 holds the counter table for update (0: not judged)
+	noCounter    bool   // the final value is not judged (the first mention of the table is a plain read: the documented reload applies)
 }
 
 func c09Scenarios() []c09Scenario {
@@ -455,6 +461,13 @@ func c09Scenarios() []c09Scenario {
 		{name: "sql SELFU,INC|SEL,INC", tables: one, sql: true, bodies: func(d string) []func(*fsx.Proc) {
 			return sqlBodies(d, "SELECT n FROM t FOR UPDATE; UPDATE t SET n = n + 1;", "SELECT n FROM t; UPDATE t SET n = n + 1;")
 		}},
+		// read-modify-write through a variable: the table is read by a locking SELECT with two sources
+		{name: "sql SELFU(t JOIN u) u:=@n+1|INC u", tables: two, sql: true, counter: "u", heldFrom: 3, bodies: func(d string) []func(*fsx.Proc) {
+			return sqlBodies(d, "VAR @n; SELECT u.n INTO @n FROM t JOIN u ON t.n > -1 FOR UPDATE; UPDATE u SET n = @n + 1;", "UPDATE u SET n = n + 1;")
+		}},
+		{name: "sql SELFU(derived(t) JOIN t) t:=@n+1|INC", tables: one, sql: true, heldFrom: 3, noCounter: true, bodies: func(d string) []func(*fsx.Proc) {
+			return sqlBodies(d, "VAR @n; SELECT t.n INTO @n FROM (SELECT MAX(n) AS m FROM t) AS mx JOIN t ON t.n = mx.m FOR UPDATE; UPDATE t SET n = @n + 1;", "UPDATE t SET n = n + 1;")
+		}},
 		{name: "sql INC|SEL", tables: one, sql: true, bodies: func(d string) []func(*fsx.Proc) { return sqlBodies(d, "UPDATE t SET n = n + 1;", "SELECT n FROM t;") }},
 		{name: "sql INC,ROLLBACK|INC", tables: one, sql: true, bodies: func(d string) []func(*fsx.Proc) {
 			return sqlBodies(d, "UPDATE t SET n = n + 1; ROLLBACK;", "UPDATE t SET n = n + 1;")
@@ -464,9 +477,6 @@ func c09Scenarios() []c09Scenario {
 		}},
 		{name: "W|W|R", tables: one, thoroughOnly: true, bodies: func(string) []func(*fsx.Proc) {
 			return []func(*fsx.Proc){bodyIncr("t.csv", true), bodyIncr("t.csv", true), bodyRead("t.csv")}
-		}},
-		{name: "W|R|R", tables: one, thoroughOnly: true, bodies: func(string) []func(*fsx.Proc) {
-			return []func(*fsx.Proc){bodyIncr("t.csv", true), bodyRead("t.csv"), bodyRead("t.csv")}
 		}},
 		{name: "W|W|W", tables: one, thoroughOnly: true, bodies: func(string) []func(*fsx.Proc) {
 			return []func(*fsx.Proc){bodyIncr("t.csv", true), bodyIncr("t.csv", true), bodyIncr("t.csv", true)}
@@ -494,6 +504,41 @@ func c09RunScenario(c *core.Ctx, s c09Scenario, deadline time.Time, replay []str
 	sc := &fsx.Scenario{Name: s.name, Setup: c09Setup(s.tables), Bodies: s.bodies, Check: c09Oracle(s.tables), TimeoutAnywhere: s.anywhere}
 	if s.sql {
 		sc.Check = c09SQLOracle(s.tables["t.csv"])
+		tbl := "t"
+		if s.counter != "" {
+			tbl = s.counter
+			sc.Check = c09SQLOracleOn(s.counter, s.tables[s.counter+".csv"])
+		}
+		if s.heldFrom > 0 {
+			final, from, noCounter := sc.Check, s.heldFrom, s.noCounter
+			sc.Check = func(w *fsx.World) []fsx.Violation {
+				var out []fsx.Violation
+				if w.Final {
+					for _, v := range final(w) {
+						if !(noCounter && strings.HasPrefix(v.Sig, "I2:")) {
+							out = append(out, v)
+						}
+					}
+				}
+				// process 1 holds the table from the end of its locking SELECT until it starts to commit: in no state
+				// may the step just taken by process 2 be the installation of new contents of that table
+				p1, p2 := w.Procs[0], w.Procs[1]
+				stmts, committing := 0, false
+				for _, l := range p1.Log() {
+					if strings.HasPrefix(l, "stmt") {
+						stmts++
+					}
+					if strings.HasPrefix(l, "rename") || strings.HasPrefix(l, "truncate") {
+						committing = true
+					}
+				}
+				l2 := p2.Log()
+				if stmts >= from && !committing && !p1.Done() && len(l2) > 0 && strings.HasPrefix(l2[len(l2)-1], "rename") && strings.Contains(l2[len(l2)-1], tbl+".csv") {
+					out = append(out, fsx.Violation{Sig: "I1:written-while-held-for-update", Msg: fmt.Sprintf("%s installs new contents of %s.csv while %s, whose SELECT ... FOR UPDATE on that table has completed, has not ended its transaction", p2.Name, tbl, p1.Name)})
+				}
+				return out
+			}
+		}
 	}
 	ex := fsx.NewExplorer(sc, core.Scratch("c09-"+strings.NewReplacer("|", "_", "(", "", ")", "", ",", "", " ", "-").Replace(s.name)), deadline)
 	if replay != nil {
